@@ -82,6 +82,8 @@ def gt(a, b):
 
 
 def cond(c, a, b):
+    if c is not None and c[0] == "int":
+        return a if c[1] else b
     return a if a == b else ("cond", c, a, b)
 
 
